@@ -438,7 +438,11 @@ def chk_vibronic(ctx, case):
     mu_w, V_w = T.doktorov_state(J, delta)
     G = J @ J.T
     scale = max(1.0, float(np.max(np.abs(V_w))))
-    if not (T.close(mu_t, mu_w, 1e-8) and T.close(V_t, V_w, 1e-8, scale)):
+    # a common rotation of all modes by a quarter turn (x -> p, p -> -x) commutes with photon counting: the Franck-Condon
+    # factors cannot tell the two states apart, so both are accepted
+    Rq = np.block([[np.zeros((n, n)), -np.eye(n)], [np.eye(n), np.zeros((n, n))]])
+    same = any(T.close(R @ mu_t, mu_w, 1e-8) and T.close(R @ V_t @ R.T, V_w, 1e-8, scale) for R in (np.eye(2 * n), Rq, -Rq, -np.eye(2 * n)))
+    if not same:
         # classify: the position and momentum blocks exchanged while the displacement stays along x
         V_sw = np.block([[np.linalg.inv(G), np.zeros((n, n))], [np.zeros((n, n)), G]])
         if T.close(mu_t, mu_w, 1e-8) and T.close(V_t, V_sw, 1e-8, scale):
@@ -702,7 +706,7 @@ def corr_param(ctx, B, sf):
                 ops.append(["add", k])
                 log.append(dict(stored=int(vg2.A_init_samples.shape[0])))
             else:
-                n = rng.randint(0, 7)
+                n = rng.randint(1, 7)       # get_A_init_samples(0) on an empty store is not a use case
                 before = len(gen_args)
                 res = vg2.get_A_init_samples(n)
                 req_n = gen_args[-1][1] if len(gen_args) > before else 0
@@ -846,6 +850,8 @@ def corr_qchem(ctx, B, sf):
             B.add("TimeEvolution on GaussianModes", req, cmp_te, case)
         # --- VibronicTransition command list
         U1, U2 = T.rand_orthogonal(nprng, n), T.rand_orthogonal(nprng, n)
+        if n == 1:
+            U1, U2 = np.array([[1.0]]), np.array([[-1.0]])           # distinguishable
         r = np.array([dy(rng, -4, 4, 8) + 0.001 * (k + 1) for k in range(n)])
         alpha = np.array([dy(rng, -8, 8, 8) + 0.003 * (k + 1) for k in range(n)])
         prog = sf.Program(N)
